@@ -5,12 +5,14 @@
   `chkpnt` writes for `u`, `chkpntUsers s` the users it rewrites (the dirty list; with 16 entries the list
   has overflowed and the owners of the in-table tasks are rewritten instead).  A crash inside `chkpnt`
   (`Cut`) and a failing call while one file is written (`chkpntFault`) leave every file either old or new;
+  an uninterrupted complete dump also removes the files of the users who own no task any more (D24), and
+  the user whose file could not be written stays on the list and is written by the next checkpoint (D120);
   `reload` (a new daemon on the spool) schedules exactly the tasks of the files, each under its owner, for a
   well-formed spool (`FilesOK`).  `snapOf t` is what a file says of a task (uid, owner, limit, duration,
   stream), `snapAt now t` the same with the occurrences earlier than `now` dropped.
-  Helper lemmas: Echse/Lemmas/Chkpnt.lean.
+  Helper lemmas: Echse/Lemmas/Chkpnt.lean, Chkpnt2.lean.
 -/
-import Echse.Lemmas.Chkpnt
+import Echse.Lemmas.Chkpnt2
 import Echse.Props.C11
 namespace C06
 open Echse.Daemon
@@ -24,20 +26,27 @@ theorem chkpnt_only_files (s : St) (cut : Option Cut) :
   ⟨rfl, rfl, rfl, rfl, rfl, rfl⟩
 
 /-- `crash_old_or_new`: wherever the checkpoint is cut (or not at all), the file of every user is the old
-one (possibly none) or exactly `tasksOf s u`; a completed checkpoint gives every user of `chkpntUsers s`
-the new file and leaves the others alone -/
+one (possibly none), or exactly `tasksOf s u`, or — only at the end of an uninterrupted complete dump
+(16 entries) and only for a user who owns no in-table task, so that the new file would be empty — removed.
+A completed checkpoint gives every user of `chkpntUsers s` the new file; below 16 entries it leaves the
+others alone, the complete dump removes their files -/
 theorem crash_old_or_new (s : St) (u : Nat) (cut : Option Cut) :
     (fileOf (chkpnt s cut).files u = fileOf s.files u ∨
-      fileOf (chkpnt s cut).files u = some (tasksOf s u)) ∧
+      fileOf (chkpnt s cut).files u = some (tasksOf s u) ∨
+      (fileOf (chkpnt s cut).files u = none ∧ tasksOf s u = [] ∧ 16 ≤ s.dirty.length ∧ cut = none)) ∧
     (cut = none → fileOf (chkpnt s cut).files u =
-      if u ∈ chkpntUsers s then some (tasksOf s u) else fileOf s.files u) := by
+      if u ∈ chkpntUsers s then some (tasksOf s u)
+      else if 16 ≤ s.dirty.length then none else fileOf s.files u) := by
   cases cut with
   | none =>
-    rw [chkpnt_files_none, fileOf_writeAll]
+    rw [fileOf_chkpnt_none]
     refine ⟨?_, fun _ => rfl⟩
     by_cases h : u ∈ chkpntUsers s
-    · exact Or.inr (by rw [if_pos h])
-    · exact Or.inl (by rw [if_neg h])
+    · exact Or.inr (Or.inl (by rw [if_pos h]))
+    · rw [if_neg h]
+      by_cases hl : 16 ≤ s.dirty.length
+      · exact Or.inr (Or.inr ⟨by rw [if_pos hl], tasksOf_nil_of_unseen hl h, hl, rfl⟩)
+      · exact Or.inl (by rw [if_neg hl])
   | some c =>
     refine ⟨?_, fun h => by cases h⟩
     rw [chkpnt_files_some]
@@ -48,26 +57,50 @@ theorem crash_old_or_new (s : St) (u : Nat) (cut : Option Cut) :
         simp only [if_true]
         rw [fileOf_setFile, fileOf_writeAll]
         by_cases h1 : u = c.u
-        · exact Or.inr (by rw [if_pos h1, h1])
+        · exact Or.inr (Or.inl (by rw [if_pos h1, h1]))
         · rw [if_neg h1]
           by_cases h : u ∈ (chkpntUsers s).takeWhile (· != c.u)
-          · exact Or.inr (by rw [if_pos h])
+          · exact Or.inr (Or.inl (by rw [if_pos h]))
           · exact Or.inl (by rw [if_neg h])
       | false =>
         simp only [Bool.false_eq_true, if_false]
         rw [fileOf_writeAll]
         by_cases h : u ∈ (chkpntUsers s).takeWhile (· != c.u)
-        · exact Or.inr (by rw [if_pos h])
+        · exact Or.inr (Or.inl (by rw [if_pos h]))
         · exact Or.inl (by rw [if_neg h])
     · rw [if_neg hc, fileOf_writeAll]
       by_cases h : u ∈ chkpntUsers s
-      · exact Or.inr (by rw [if_pos h])
+      · exact Or.inr (Or.inl (by rw [if_pos h]))
       · exact Or.inl (by rw [if_neg h])
+
+/-- a crash never removes a file: a user who had a file has one (old or new) after a cut checkpoint -/
+theorem crash_keeps_files (s : St) (u : Nat) (c : Cut) :
+    fileOf (chkpnt s (some c)).files u = fileOf s.files u ∨
+      fileOf (chkpnt s (some c)).files u = some (tasksOf s u) := by
+  rcases (crash_old_or_new s u (some c)).1 with h | h | ⟨_, _, _, h⟩
+  · exact Or.inl h
+  · exact Or.inr h
+  · cases h
 
 /-- a completed checkpoint, file by file -/
 theorem chkpnt_complete (s : St) (u : Nat) :
-    fileOf (chkpnt s).files u = if u ∈ chkpntUsers s then some (tasksOf s u) else fileOf s.files u :=
+    fileOf (chkpnt s).files u =
+      if u ∈ chkpntUsers s then some (tasksOf s u)
+      else if 16 ≤ s.dirty.length then none else fileOf s.files u :=
   (crash_old_or_new s u none).2 rfl
+
+/-- the complete dump leaves exactly the files of the owners of in-table tasks -/
+theorem complete_dump_exact (s : St) (hl : 16 ≤ s.dirty.length) (u : Nat) :
+    ((∃ t ∈ s.tasks, t.inTable = true ∧ t.owner = u) → fileOf (chkpnt s).files u = some (tasksOf s u)) ∧
+    ((∀ t ∈ s.tasks, t.inTable = true → t.owner ≠ u) → fileOf (chkpnt s).files u = none) := by
+  rw [chkpnt_complete]
+  constructor
+  · intro h
+    rw [if_pos ((mem_chkpntUsers_overflow hl u).mpr h)]
+  · intro h
+    rw [if_neg (fun c => by
+      obtain ⟨t, ht, hi, ho⟩ := (mem_chkpntUsers_overflow hl u).mp c
+      exact h t ht hi ho), if_pos hl]
 
 /-! ### 2. the cut is a prefix of the user list -/
 
@@ -98,10 +131,16 @@ theorem cut_prefix (s : St) (u : Nat) (after : Bool) (hu : u ∈ chkpntUsers s) 
 theorem before_first {l : List Nat} {u : Nat} (h : u ∈ l) :
     ∃ rest, l = l.takeWhile (· != u) ++ u :: rest ∧ u ∉ l.takeWhile (· != u) := split_first h
 
-/-- a cut at a user that is not rewritten never happens: the checkpoint completes -/
+/-- a cut at a user that is not rewritten: every file of the list is written; below 16 entries that is the
+completed checkpoint, in the complete dump the process dies before the files of the other users are removed
+(see the example below `cancelHist`) -/
 theorem cut_absent (s : St) (c : Cut) (hu : c.u ∉ chkpntUsers s) :
-    (chkpnt s (some c)).files = (chkpnt s).files := by
+    (∀ v, fileOf (chkpnt s (some c)).files v =
+      if v ∈ chkpntUsers s then some (tasksOf s v) else fileOf s.files v) ∧
+    (s.dirty.length < 16 → (chkpnt s (some c)).files = (chkpnt s).files) := by
   rw [chkpnt_files_some, if_neg hu, chkpnt_files_none]
+  refine ⟨fun v => fileOf_writeAll s v _ _, fun hl => ?_⟩
+  rw [if_neg (by omega)]
 
 /-! ### 3. a failing call is isolated -/
 
@@ -123,22 +162,52 @@ theorem fault_isolated (s : St) (u v : Nat) :
     · rw [if_pos ((List.mem_erase_of_ne h).mpr h2), if_pos h2]
     · rw [if_neg (fun c => h2 ((List.mem_erase_of_ne h).mp c)), if_neg h2]
 
-/-- in particular the file of `u` is old or new, and nobody else notices the fault -/
+/-- in particular the file of `u` is old or new, and the users of the list do not notice the fault (below 16
+entries nobody does; the complete dump hit by a fault does not remove the files of the users off the list) -/
 theorem fault_old_or_new (s : St) (u v : Nat) :
     (fileOf (chkpntFault s u).files v = fileOf s.files v ∨
       fileOf (chkpntFault s u).files v = some (tasksOf s v)) ∧
-    (v ≠ u → fileOf (chkpntFault s u).files v = fileOf (chkpnt s).files v) := by
+    (v ≠ u → v ∈ chkpntUsers s ∨ s.dirty.length < 16 →
+      fileOf (chkpntFault s u).files v = fileOf (chkpnt s).files v) := by
   rw [fault_isolated, chkpnt_complete]
-  refine ⟨?_, fun h => by rw [if_neg h]⟩
-  by_cases h : v = u
-  · rw [if_pos h, h]
-    by_cases h2 : 2 ≤ (chkpntUsers s).count u
-    · exact Or.inr (by rw [if_pos h2])
-    · exact Or.inl (by rw [if_neg h2])
+  refine ⟨?_, fun h h' => ?_⟩
+  · by_cases h : v = u
+    · rw [if_pos h, h]
+      by_cases h2 : 2 ≤ (chkpntUsers s).count u
+      · exact Or.inr (by rw [if_pos h2])
+      · exact Or.inl (by rw [if_neg h2])
+    · rw [if_neg h]
+      by_cases h2 : v ∈ chkpntUsers s
+      · exact Or.inr (by rw [if_pos h2])
+      · exact Or.inl (by rw [if_neg h2])
   · rw [if_neg h]
-    by_cases h2 : v ∈ chkpntUsers s
-    · exact Or.inr (by rw [if_pos h2])
-    · exact Or.inl (by rw [if_neg h2])
+    rcases h' with h' | h'
+    · rw [if_pos h', if_pos h']
+    · rw [if_neg (show ¬ 16 ≤ s.dirty.length by omega)]
+
+/-- the tasks are not touched, and whoever's file could not be written stays on the dirty list (the complete
+dump keeps the whole list); a fault at a user that is not rewritten never happens -/
+theorem fault_keeps_dirty (s : St) (u : Nat) :
+    (chkpntFault s u).tasks = s.tasks ∧ (chkpntFault s u).now = s.now ∧
+    (chkpntFault s u).dirty =
+      if u ∈ chkpntUsers s then (if 16 ≤ s.dirty.length then s.dirty else [u]) else [] :=
+  ⟨rfl, rfl, chkpntFault_dirty s u⟩
+
+/-- `fault_is_retried` (finding D120, repaired): after a failing call while `u`'s file is written, `u` is
+still on the list, and the next completed checkpoint writes the file: it holds `u`'s tasks, the change is
+not lost.  The spool is then, file by file, what the checkpoint without the fault would have left, and the
+list is empty -/
+theorem fault_is_retried (s : St) (u : Nat) (hu : u ∈ chkpntUsers s) :
+    u ∈ chkpntUsers (chkpntFault s u) ∧
+    fileOf (chkpnt (chkpntFault s u)).files u = some (tasksOf s u) ∧
+    (∀ v, fileOf (chkpnt (chkpntFault s u)).files v = fileOf (chkpnt s).files v) ∧
+    (chkpnt (chkpntFault s u)).dirty = [] := by
+  refine ⟨?_, ?_, fun v => fault_retry hu v, rfl⟩
+  · rw [chkpntUsers_chkpntFault hu]
+    split
+    · exact hu
+    · exact List.mem_singleton.mpr rfl
+  · rw [fault_retry hu u, chkpnt_complete, if_pos hu]
 
 /-! ### 4. a new daemon restores the spool -/
 
@@ -197,10 +266,12 @@ theorem chkpnt_users (s : St) :
   ⟨chkpntUsers_dirty, mem_chkpntUsers_overflow⟩
 
 /-- the spool after a completed checkpoint of a well-formed state is well-formed, if there is one file per
-user and the files that are not rewritten are `Current` (each entry names an in-table task of the file's
-user: e.g. the file is `tasksOf s u`, an older snapshot of tasks still there, or empty) -/
+user and — below 16 entries; the complete dump leaves no such file — the files that are not rewritten are
+`Current` (each entry names an in-table task of the file's user: e.g. the file is `tasksOf s u`, an older
+snapshot of tasks still there, or empty) -/
 theorem chkpnt_spool_ok {s : St} (h : Inv s) (hu : s.users = ({ me := 0 } : St).users)
-    (hk : (keys s.files).Nodup) (hc : ∀ f ∈ s.files, f.1 ∉ chkpntUsers s → Current s f) :
+    (hk : (keys s.files).Nodup)
+    (hc : s.dirty.length < 16 → ∀ f ∈ s.files, f.1 ∉ chkpntUsers s → Current s f) :
     FilesOK (chkpnt s).files ∧ (keys (chkpnt s).files).Nodup := FilesOK_chkpnt h hu hk hc
 
 /-- `clean_shutdown`: checkpoint, stop, start a root daemon on the spool at the same clock value.  If the
@@ -215,36 +286,55 @@ theorem clean_shutdown {s : St} (h : Inv s) (hu : s.users = ({ me := 0 } : St).u
     (∀ u, u ∉ s.dirty → (tasksOf (reload (chkpnt s).files 0 s.now) u).map snapOf =
       (((fileOf s.files u).getD []).map (snapAt s.now)).filter (fun sn => !sn.occ.isEmpty)) := by
   have hcu := chkpntUsers_dirty hl
-  have hc' : ∀ f ∈ s.files, f.1 ∉ chkpntUsers s → Current s f := by rw [hcu]; exact hc
+  have hc' : s.dirty.length < 16 → ∀ f ∈ s.files, f.1 ∉ chkpntUsers s → Current s f := by
+    intro _; rw [hcu]; exact hc
   refine ⟨C11.reload_inv _ 0 s.now (FilesOK_chkpnt h hu hk hc').1.sorted, ?_, ?_⟩
   · intro u hm
     exact chkpnt_reload_user h hu hk hc' (by rw [hcu]; exact hm)
   · intro u hm
-    exact chkpnt_reload_other h hu hk hc' s.now (by rw [hcu]; exact hm)
+    rw [chkpnt_reload_other h hu hk hc' s.now (by rw [hcu]; exact hm), if_neg (by omega)]
 
-/-- … in either mode of `chkpnt`: if the files that are not rewritten are up to date (`tasksOf s u`, or no
-file and no task), the new daemon has the table of the old one, user by user -/
+/-- … in either mode of `chkpnt`: if — below 16 entries — the files that are not rewritten are up to date
+(`tasksOf s u`, or no file and no task), the new daemon has the table of the old one, user by user, and its
+state is well-formed -/
 theorem clean_shutdown_all {s : St} (h : Inv s) (hu : s.users = ({ me := 0 } : St).users)
     (hk : (keys s.files).Nodup)
-    (hsync : ∀ u, u ∉ chkpntUsers s →
-      fileOf s.files u = some (tasksOf s u) ∨ (fileOf s.files u = none ∧ tasksOf s u = []))
-    (u : Nat) :
-    (tasksOf (reload (chkpnt s).files 0 s.now) u).map snapOf = (tasksOf s u).map snapOf :=
-  chkpnt_reload_all h hu hk hsync u
+    (hsync : s.dirty.length < 16 → ∀ u, u ∉ chkpntUsers s →
+      fileOf s.files u = some (tasksOf s u) ∨ (fileOf s.files u = none ∧ tasksOf s u = [])) :
+    Inv (reload (chkpnt s).files 0 s.now) ∧
+    ∀ u, (tasksOf (reload (chkpnt s).files 0 s.now) u).map snapOf = (tasksOf s u).map snapOf := by
+  refine ⟨C11.reload_inv _ 0 s.now ?_, chkpnt_reload_all h hu hk hsync⟩
+  intro f hf t ht
+  rcases mem_chkpnt hk hf with ⟨_, h2⟩ | ⟨hl, h1, h2⟩
+  · rw [h2] at ht
+    exact (h.tinv' (mem_tasksOf.mp ht).1).sorted
+  · have h3 := fileOf_of_mem hk h2
+    rcases hsync hl f.1 h1 with h4 | ⟨h4, _⟩
+    · rw [h3] at h4
+      rw [Option.some.inj h4] at ht
+      exact (h.tinv' (mem_tasksOf.mp ht).1).sorted
+    · rw [h3] at h4; cases h4
 
-/-- the overflowed dirty list (16 entries): the owners of in-table tasks are restored, under the same
-proviso on the other files — which a user whose last task was cancelled violates, see the examples -/
+/-- `clean_shutdown_overflow` (finding D24, repaired): the overflowed dirty list (16 entries).  The complete
+dump leaves exactly the files of the owners of in-table tasks, so whatever the spool held before (one file
+per user), the new daemon has the table of the old one, user by user — in particular nothing for a user
+whose last task was cancelled -/
 theorem clean_shutdown_overflow {s : St} (h : Inv s) (hu : s.users = ({ me := 0 } : St).users)
-    (hk : (keys s.files).Nodup) (hl : 16 ≤ s.dirty.length)
-    (hc : ∀ f ∈ s.files, (∀ t ∈ s.tasks, t.inTable = true → t.owner ≠ f.1) → Current s f)
-    {u : Nat} {t : DTask} (ht : t ∈ s.tasks) (hi : t.inTable = true) (ho : t.owner = u) :
-    (tasksOf (reload (chkpnt s).files 0 s.now) u).map snapOf = (tasksOf s u).map snapOf := by
-  have hc' : ∀ f ∈ s.files, f.1 ∉ chkpntUsers s → Current s f := by
-    intro f hf hn
-    apply hc f hf
-    intro x hx hxi hxo
-    exact hn ((mem_chkpntUsers_overflow hl f.1).mpr ⟨x, hx, hxi, hxo⟩)
-  exact chkpnt_reload_user h hu hk hc' ((mem_chkpntUsers_overflow hl u).mpr ⟨t, ht, hi, ho⟩)
+    (hk : (keys s.files).Nodup) (hl : 16 ≤ s.dirty.length) :
+    FilesOK (chkpnt s).files ∧ Inv (reload (chkpnt s).files 0 s.now) ∧
+    ∀ u, (tasksOf (reload (chkpnt s).files 0 s.now) u).map snapOf = (tasksOf s u).map snapOf :=
+  have hn : ¬ s.dirty.length < 16 := by omega
+  ⟨(FilesOK_chkpnt h hu hk (fun c => absurd c hn)).1,
+   clean_shutdown_all h hu hk (fun c => absurd c hn)⟩
+
+/-- … and the same after a checkpoint hit by a failing call and the checkpoint that retries it -/
+theorem clean_shutdown_retried {s : St} (h : Inv s) (hu : s.users = ({ me := 0 } : St).users)
+    (hk : (keys s.files).Nodup)
+    (hsync : s.dirty.length < 16 → ∀ u, u ∉ chkpntUsers s →
+      fileOf s.files u = some (tasksOf s u) ∨ (fileOf s.files u = none ∧ tasksOf s u = []))
+    {u : Nat} (hm : u ∈ chkpntUsers s) (v : Nat) :
+    (tasksOf (reload (chkpnt (chkpntFault s u)).files 0 s.now) v).map snapOf = (tasksOf s v).map snapOf :=
+  fault_retry_reload h hu hk hsync hm v
 
 /-! ### concrete states -/
 
@@ -321,36 +411,73 @@ example :
       = [{ uid := "k", owner := 1002, maxSimul := 63, dur := 0, occ := [20] }] := by decide
 
 set_option maxRecDepth 4000 in
-/-- FINDING (recorded): 16 dirty entries — none lost, user 1001 is the 16th — switch `chkpnt` to "owners of
-in-table tasks".  User 1001 has none left, so the file that still holds the cancelled `j` is not rewritten,
-and a new daemon schedules `j` again -/
-theorem cancelled_task_survives_overflow :
+/-- finding D24, repaired: 16 dirty entries — none lost, user 1001 is the 16th — switch `chkpnt` to "owners of
+in-table tasks".  User 1001 has none left and is not rewritten, but the completed checkpoint removes the file
+that still holds the cancelled `j`: the cancelled task is gone from the spool, a new daemon has `k` only -/
+theorem cancelled_task_gone_after_overflow :
     (run { me := 0 } (cancelHist 15)).1.dirty = List.replicate 15 1002 ++ [1001] ∧
     absMap (run { me := 0 } (cancelHist 15)).1 "j" = none ∧
     tasksOf (run { me := 0 } (cancelHist 15)).1 1001 = [] ∧
     chkpntUsers (run { me := 0 } (cancelHist 15)).1 = [1002] ∧
+    (run { me := 0 } (cancelHist 15)).1.files.map (fun f => (f.1, f.2.map snapOf))
+      = [(1001, [{ uid := "j", owner := 1001, maxSimul := 63, dur := 0, occ := [10] }])] ∧
     (run { me := 0 } (cancelHist 15 ++ [.chk])).1.files.map (fun f => (f.1, f.2.map snapOf))
-      = [(1001, [{ uid := "j", owner := 1001, maxSimul := 63, dur := 0, occ := [10] }]),
-         (1002, [{ uid := "k", owner := 1002, maxSimul := 63, dur := 0, occ := [20] }])] ∧
+      = [(1002, [{ uid := "k", owner := 1002, maxSimul := 63, dur := 0, occ := [20] }])] ∧
     (reload (run { me := 0 } (cancelHist 15 ++ [.chk])).1.files 0 0).tasks.map snapOf
-      = [{ uid := "j", owner := 1001, maxSimul := 63, dur := 0, occ := [10] },
-         { uid := "k", owner := 1002, maxSimul := 63, dur := 0, occ := [20] }] := by decide
+      = [{ uid := "k", owner := 1002, maxSimul := 63, dur := 0, occ := [20] }] := by decide
 
 set_option maxRecDepth 4000 in
-/-- … and when user 1002 then schedules a task `j` of its own (accepted, checkpointed), the spool holds the uid
-twice (`FilesOK.uids` fails); the new daemon gives `j` back to user 1001 with the old stream and refuses the
-task of user 1002 -/
-theorem stale_file_shadows_new_task :
+/-- finding D24, repaired: … and when user 1002 then schedules a task `j` of its own (accepted,
+checkpointed), the spool holds the uid once, in the file of user 1002; the new daemon restores `j` to its
+owner 1002 with the new stream -/
+theorem later_task_restored_to_owner :
     (run { me := 0 } (cancelHist 15 ++ [.chk, .req 1002 [.sched "j" none 63 0 [30] true], .chk])).2.2.getLast?
       = some ("j", true) ∧
     (run { me := 0 } (cancelHist 15 ++ [.chk, .req 1002 [.sched "j" none 63 0 [30] true], .chk])).1.files.map
         (fun f => (f.1, f.2.map snapOf))
-      = [(1001, [{ uid := "j", owner := 1001, maxSimul := 63, dur := 0, occ := [10] }]),
-         (1002, [{ uid := "k", owner := 1002, maxSimul := 63, dur := 0, occ := [20] },
+      = [(1002, [{ uid := "k", owner := 1002, maxSimul := 63, dur := 0, occ := [20] },
                  { uid := "j", owner := 1002, maxSimul := 63, dur := 0, occ := [30] }])] ∧
     (reload (run { me := 0 } (cancelHist 15 ++ [.chk, .req 1002 [.sched "j" none 63 0 [30] true], .chk])).1.files
         0 0).tasks.map snapOf
+      = [{ uid := "k", owner := 1002, maxSimul := 63, dur := 0, occ := [20] },
+         { uid := "j", owner := 1002, maxSimul := 63, dur := 0, occ := [30] }] := by decide
+
+set_option maxRecDepth 4000 in
+/-- the complete dump cut at a user it does not rewrite (`cut_absent`): the process dies before the removal,
+the stale file of user 1001 is still there; the next completed checkpoint (the list is kept) removes it -/
+example :
+    (chkpnt (run { me := 0 } (cancelHist 15)).1 (some ⟨1001, true⟩)).files.map (fun f => (f.1, f.2.map DTask.uid))
+      = [(1001, ["j"]), (1002, ["k"])] ∧
+    (chkpnt (run { me := 0 } (cancelHist 15)).1).files.map (fun f => (f.1, f.2.map DTask.uid))
+      = [(1002, ["k"])] := by decide
+
+set_option maxRecDepth 4000 in
+/-- finding D120, repaired (`fault_is_retried`): user 1001 schedules `j`, the rename of its file fails at the
+checkpoint: no file, but 1001 stays on the list; after the request of user 1002 the next checkpoint writes
+both files, and a new daemon has `j` and `k`.  The same with the overflowed list (the state of `cancelHist 15`,
+fault at user 1002): the list is kept, the next checkpoint is again a complete dump -/
+theorem failed_file_written_next_time :
+    (chkpntFault (run { me := 0 } [.req 1001 [.sched "j" none 63 0 [10] true]]).1 1001).files = [] ∧
+    (chkpntFault (run { me := 0 } [.req 1001 [.sched "j" none 63 0 [10] true]]).1 1001).dirty = [1001] ∧
+    (run (chkpntFault (run { me := 0 } [.req 1001 [.sched "j" none 63 0 [10] true]]).1 1001)
+        [.req 1002 [.sched "k" none 63 0 [20] true], .chk]).1.files.map (fun f => (f.1, f.2.map DTask.uid))
+      = [(1001, ["j"]), (1002, ["k"])] ∧
+    (reload (run (chkpntFault (run { me := 0 } [.req 1001 [.sched "j" none 63 0 [10] true]]).1 1001)
+        [.req 1002 [.sched "k" none 63 0 [20] true], .chk]).1.files 0 0).tasks.map snapOf
       = [{ uid := "j", owner := 1001, maxSimul := 63, dur := 0, occ := [10] },
-         { uid := "k", owner := 1002, maxSimul := 63, dur := 0, occ := [20] }] := by decide
+         { uid := "k", owner := 1002, maxSimul := 63, dur := 0, occ := [20] }] ∧
+    (chkpntFault (run { me := 0 } (cancelHist 15)).1 1002).dirty.length = 16 ∧
+    (chkpnt (chkpntFault (run { me := 0 } (cancelHist 15)).1 1002)).files.map (fun f => (f.1, f.2.map DTask.uid))
+      = [(1002, ["k"])] := by decide
+
+set_option maxRecDepth 4000 in
+/-- the hypotheses of `clean_shutdown_overflow` hold in that reachable state, which has a stale file -/
+example :
+    let s := (run { me := 0 } (cancelHist 15)).1
+    Inv s ∧ s.users = ({ me := 0 } : St).users ∧ (keys s.files).Nodup ∧ 16 ≤ s.dirty.length ∧
+    (fileOf s.files 1001).map (·.map DTask.uid) = some ["j"] ∧ tasksOf s 1001 = [] := by
+  intro s
+  exact ⟨C11.reachable_inv 0 _ (by simp [cancelHist, List.replicate, Mono, instrSorted]),
+    by decide, by decide, by decide, by decide, by decide⟩
 
 end C06
